@@ -164,6 +164,7 @@ def run_serial(cfg):
         ctrl = controller_nonMPI(num_procs=cfg['P'], controller_params=cp, description=desc)
     else:
         cp, desc = describe(cfg)
+        _drop_mpi_restarting(cfg, desc)
         ctrl = controller_nonMPI(num_procs=1, controller_params=cp, description=desc)
     u0 = _u0(ctrl.MS[0].levels[0].prob)
     try:
@@ -171,6 +172,14 @@ def run_serial(cfg):
     except ConvergenceError:
         return {'error': 'ConvergenceError'}
     return observe(uend, stats)
+
+
+def _drop_mpi_restarting(cfg, desc):
+    """node-parallel sweepers run inside the serial controller: only the serial flavour of the restarting controller"""
+    if cfg['restarting'] is not None:
+        from pySDC.implementations.convergence_controller_classes.basic_restarting import BasicRestartingMPI
+
+        desc['convergence_controllers'].pop(BasicRestartingMPI, None)
 
 
 def make_rank_fn(cfg):
@@ -185,6 +194,7 @@ def make_rank_fn(cfg):
             prob = ctrl.S.levels[0].prob
         elif cfg['kind'] == 'nodes':
             cp, desc = describe(cfg, sweeper_comm=world)
+            _drop_mpi_restarting(cfg, desc)
             ctrl = controller_nonMPI(num_procs=1, controller_params=cp, description=desc)
             prob = ctrl.MS[0].levels[0].prob
         else:  # 'spacetime': world = P x M grid, time-major
